@@ -141,6 +141,63 @@ func CheckC16(e *fw.Env, l *Lab) {
 			}
 		}
 	}
+	// every forwarding type while the orbiter account holds coins of OTHER denominations (anybody
+	// can send coins there): the coin forwarded is the coin credited, the others do not move
+	mint := make([]byte, 32)
+	mint[31] = 3
+	zero := "0"
+	orb := world.OrbiterAddr().String()
+	all := []string{world.USDC, world.USDN, world.EURE}
+	routes := []spec.Route{
+		{Kind: "cctp", Domain: 0, MintRecipient: mint},
+		{Kind: "cctp", Domain: 2, MintRecipient: mint, Caller: mint},
+		{Kind: "hyp", Domain: 1, TokenID: w.Hyp.TokenUSDC.Bytes(), Recipient: mint, GasLimit: &zero, MaxFee: &spec.Coin{Denom: world.USDN, Amount: "0"}},
+		{Kind: "hyp", Domain: 10, TokenID: w.Hyp.TokenUSDN.Bytes(), Recipient: mint, GasLimit: &zero, MaxFee: &spec.Coin{Denom: world.USDN, Amount: "0"}},
+		{Kind: "internal", To: rcpt},
+	}
+	for pi, pair := range w.Channels {
+		for di, dn := range all {
+			for ri, rt := range routes {
+				if !e.Mine(pi*100 + di*10 + ri) {
+					continue
+				}
+				ctx, _ := l.Base.CacheContext()
+				held := map[string]string{}
+				for _, od := range all {
+					if od != dn {
+						amt := big.NewInt(int64(1_000_000 + e.R.Intn(9_000_000)))
+						if Deposit(w, ctx, w.K("carol"), od, amt) == nil {
+							held[od] = amt.String()
+						}
+					}
+				}
+				s := &spec.Spec{Route: rt}
+				if e.R.Intn(2) == 0 {
+					s.HasFee, s.Fees = true, []spec.Fee{{Recipient: w.K("fee1").String(), IsBPS: true, BPS: 50}}
+				}
+				t := run.Transfer{Pair: pair, Denom: dn, Amount: fmt.Sprint(1000 + e.R.Intn(900_000)), Sender: w.K("bob").String(), Receiver: OrbiterReceiver(), Spec: s}
+				e.Log(map[string]any{"transfer": t, "orbiter_holds": held})
+				o := run.Do(w, ctx, t, run.Mode{Kind: "H"})
+				e.Res.Eval()
+				Universal(e.Res, o)
+				if o.Res.Panic != nil || o.Res.Err != nil || o.Res.Ack == nil {
+					continue
+				}
+				if o.Success() {
+					for _, od := range all {
+						if o.Delta.Of(orb, od).Sign() != 0 {
+							e.Res.Violate(fw.Violation{Property: "C16", Kind: "coin-acted-on-differs-from-coin-credited", Tags: map[string]string{"route": rt.Kind},
+								Detail: fmt.Sprintf("packet credits %s %s, orbiter account holds %v of other denominations; after a success acknowledgement its %s balance changed by %s (delta %s)",
+									t.Amount, dn, held, od, o.Delta.Of(orb, od), o.Delta.String()),
+								Witness: map[string]any{"transfer": t, "orbiter_holds": held, "outcome": o.Res.String(), "delta": o.Delta.String()}})
+							break
+						}
+					}
+				}
+				e.Res.Sig("other-denoms-held|%s|%s|fee=%v|%s", rt.Kind, dn, s.HasFee, outcomeClass(o))
+			}
+		}
+	}
 	// random compositions of path segments
 	n := e.N(3000, 150000)
 	segs := []string{"transfer", "channel-0", "channel-1", "channel-2", "channel-3", "uusdc", "uusdn", "ibc", "", "x", "factory", "transfer/channel-1", "icahost"}
